@@ -148,6 +148,24 @@ fn lax_observe(c: &Case) -> Result<Vec<Obs>, String> {
     let (sx, sy) = (mk(&c.x), mk(&c.y));
     out.push(Obs::Accept("lax-spider", sx.is_some(), c.x.well_typed()));
     out.push(Obs::Accept("lax-spider", sy.is_some(), c.y.well_typed()));
+    // the trait-level constructors (the inherent `spider` shadows the trait method in a plain call)
+    {
+        type LOH = lax::OpenHypergraph<L, L>;
+        let leg = |t: &Vec<usize>, cod: usize| FiniteFunction::<VecKind> { table: VecArray(t.clone()), target: cod };
+        for k in [&c.x, &c.y] {
+            let sp = <LOH as Spider<VecKind>>::spider(leg(&k.s, k.s_cod), leg(&k.t, k.t_cod), k.w.clone());
+            out.push(Obs::Accept("lax-spider-through-Spider-trait", sp.is_some(), k.well_typed()));
+            if let Some(sp) = sp {
+                out.push(Obs::Iso("lax-trait-spider-is-discrete-cospan", from_lax(sp, "lax trait spider")?, k.plain()));
+            }
+            let hs = <LOH as Spider<VecKind>>::half_spider(leg(&k.s, k.s_cod), k.w.clone());
+            out.push(Obs::Accept("lax-half_spider", hs.is_some(), k.s_cod == k.w.len()));
+            if let Some(hs) = hs {
+                let want = Plain { w: k.w.clone(), e: vec![], s: k.s.clone(), t: (0..k.w.len()).collect() };
+                out.push(Obs::Iso("lax-half-spider-is-spider-with-identity-leg", from_lax(hs, "lax half_spider")?, want));
+            }
+        }
+    }
     if let (Some(sx), Some(sy)) = (sx, sy) {
         let (px, py) = (c.x.plain(), c.y.plain());
         out.push(Obs::Iso("lax-spider-is-discrete-cospan", from_lax(sx.clone(), "lax spider")?, px.clone()));
@@ -371,7 +389,7 @@ impl Check for C04 {
         out
     }
     fn rule() -> &'static str {
-        "Each run draws a composable pair (f,g), two labelled cospans x,y with matching boundary types (non-injective / non-surjective legs, empty node sets; with probability 1/5 resp. 1/8 a claimed leg codomain is corrupted: off by one either way or zero) and two object lists. On each configuration (sim/control, vec, vec/lax, 1-3 perturbed schedules): dagger swaps interfaces exactly and is an involution exactly; (f;g)† ≅ g†;f†; (f⊗g)† ≅ f†⊗g†; spider/half_spider accepted iff both legs land in the node list; spider ≅ its discrete cospan; spider;spider ≅ reference cospan composition; identity and symmetry ≅ the corresponding spiders (strict and lax); the lax law instances are also evaluated on operands that still carry pending unifications (unquotiented composites on either side of compose / tensor); source and target types are also read through the Arrow trait. Non-trivial iff f or x has a node; distinct = distinct (workload fingerprint, device decision fingerprint) pairs."
+        "Each run draws a composable pair (f,g), two labelled cospans x,y with matching boundary types (non-injective / non-surjective legs, empty node sets; with probability 1/5 resp. 1/8 a claimed leg codomain is corrupted: off by one either way or zero) and two object lists. On each configuration (sim/control, vec, vec/lax, 1-3 perturbed schedules): dagger swaps interfaces exactly and is an involution exactly; (f;g)† ≅ g†;f†; (f⊗g)† ≅ f†⊗g†; spider/half_spider (strict; lax inherent and through the Spider trait) accepted iff both legs land in the node list; spider ≅ its discrete cospan; spider;spider ≅ reference cospan composition; identity and symmetry ≅ the corresponding spiders (strict and lax); the lax law instances are also evaluated on operands that still carry pending unifications (unquotiented composites on either side of compose / tensor); source and target types are also read through the Arrow trait. Non-trivial iff f or x has a node; distinct = distinct (workload fingerprint, device decision fingerprint) pairs."
     }
     fn assumptions() -> Vec<&'static str> {
         vec![
